@@ -2,7 +2,7 @@
 """Writes MANIFEST.json from props.json (claimed properties) + the list of all property ids."""
 import json, os
 ROOT = os.path.dirname(os.path.dirname(os.path.abspath(__file__)))
-props = json.load(open(os.path.join(ROOT, "props.json")))
+props = {fn[:-5]: json.load(open(os.path.join(ROOT, "props", fn))) for fn in sorted(os.listdir(os.path.join(ROOT, "props"))) if fn.endswith(".json")}
 all_ids = [json.loads(l)["id"] for l in open(os.path.join(ROOT, "properties.jsonl")) if l.strip()]
 hooks = json.load(open(os.path.join(ROOT, "hooks.json")))
 checks = []
